@@ -49,3 +49,15 @@ package trafficrouting
 //@ sets @trCleanupDone := result0 && result1 == nil
 //@ ensures done_has_no_error: result0 ==> result1 == nil
 //@ ensures done_means_all_done: result0 && old(len(c.ObjectRef)) > 0 ==> #restoreStable == 1 && !#restoreStable.ret0 && #restoreStable.ret1 == nil && #restoreGateway == 1 && !#restoreGateway.ret0 && #restoreGateway.ret1 == nil && #removeCanarySvc == 1 && !#removeCanarySvc.ret0 && #removeCanarySvc.ret1 == nil
+
+// ---------- C03: a step is reported as routed only after the provider verified the step's own rule ----------
+//@ track (*Manager).createCanaryService as createCanarySvc
+//@ define stepRoutes(c) = c.Strategy.Traffic != nil || len(c.Strategy.Matches) > 0
+
+//@ func (*Manager).DoTrafficRouting
+//@ props C03
+//@ requires m != nil && m.Client != nil && c != nil
+//@ ensures done_has_no_error: result0 ==> result1 == nil
+//@ ensures routed_means_provider_verified: result0 && old(len(c.ObjectRef)) > 0 && old(stepRoutes(c)) ==> #ensureRoutes == 1 && #ensureRoutes.ret0 && #ensureRoutes.ret1 == nil && #ensureRoutes.arg2 == &c.Strategy
+//@ ensures routed_means_no_service_write_in_this_call: result0 ==> #Patch == 0 && #Create == 0 && #Update == 0 && #Delete == 0 && #createCanarySvc == 0
+//@ ensures at_most_one_provider_call: #ensureRoutes <= 1
